@@ -103,6 +103,27 @@ def edge_values(edges, xs, conv):
     return sum(1 for x in xs if x == e)
 
 
+def band_polygon(x, lower, upper):
+    """the shaded band between two envelopes given at common abscissae (documentation of verif.util.fill, "fill an
+    area along x, between y_lower and y_upper"): along the lower envelope from left to right through every point
+    at which the LOWER envelope is defined, then back from right to left through every point at which the UPPER
+    envelope is defined.  A point is defined iff neither its abscissa nor its own ordinate is missing (NaN);
+    what the other envelope holds there is irrelevant.  -> (X, Y), possibly empty"""
+    pts = []
+    for i in range(len(x)):
+        if x[i] == x[i] and lower[i] == lower[i]:
+            pts.append((float(x[i]), float(lower[i])))
+    for i in reversed(range(len(x))):
+        if x[i] == x[i] and upper[i] == upper[i]:
+            pts.append((float(x[i]), float(upper[i])))
+    return [p[0] for p in pts], [p[1] for p in pts]
+
+
+def band_series(x, lower, upper):
+    X, Y = band_polygon(x, lower, upper)
+    return [(0, "poly", "_", X, Y)] if X else []          # no vertex: nothing is drawn
+
+
 # ------------------------------------------------------------------ valid cases
 def fkey(kind, v):
     return "%s@%s" % (kind, xr(float(v)))
@@ -220,9 +241,13 @@ def expected(name, o, ds):
         out.append((0, "line", "Observed", xs, [mean(take(ds, 0, "obs", V & m)) for m in ms]))
         for f in range(F):
             out.append((0, "line", nm[f], xs, [mean(take(ds, f, "fcst", V & m)) for m in ms]))
+            ql = []
             for q in o.get("q", []):
                 Vq = valid(ds, [fkey("q", q), "obs"])
-                out.append((0, "line", "%s %g%%" % (nm[f], q * 100), xs, [mean(take(ds, f, fkey("q", q), Vq & m)) for m in ms]))
+                ql.append([mean(take(ds, f, fkey("q", q), Vq & m)) for m in ms])
+                out.append((0, "line", "%s %g%%" % (nm[f], q * 100), xs, ql[-1]))
+            for i in range(len(ql) // 2):          # the band between the i-th and the i-th last quantile line
+                out += band_series(xs, ql[i], ql[len(ql) - 1 - i])
     elif name in ("qq", "scatter"):
         qs = o.get("q", []) if name == "qq" else []
         V = valid(ds, ["obs", "fcst"] + [fkey("q", q) for q in qs])
@@ -570,8 +595,12 @@ def expected(name, o, ds):
             return res
         out.append((0, "line", "Observed", xs, avg("obs")))
         out.append((0, "line", "Forecast", xs, avg("fcst")))
+        ql = []
         for q in sorted(o.get("q", ds.quantiles())):
-            out.append((0, "line", "%g%%" % (q * 100), xs, avg(fkey("q", q))))
+            ql.append(avg(fkey("q", q)))
+            out.append((0, "line", "%g%%" % (q * 100), xs, ql[-1]))
+        for i in range(len(ql) // 2):              # bands between the i-th lowest and the i-th highest quantile
+            out += band_series(xs, ql[i], ql[len(ql) - 1 - i])
     else:
         return None
     return out
